@@ -415,29 +415,31 @@ impl<'a, C: SchedCheck> Prop for SchedProp<'a, C> {
         if !fails(&cur) {
             return None;
         }
+        let key = v["key"].as_str().unwrap_or("").to_string();
+        let mut searches = 60usize;
         loop {
             let mut progressed = false;
-            // 1. smaller scripts (schedule kept; decisions keep their meaning only approximately)
+            // 1. smaller scripts: positions of the stored decisions lose their meaning when the
+            //    script changes, so look for a failing schedule of the candidate afresh with the
+            //    bounded-exhaustive enumerator (<= 2 preemptions, capped) and keep it if the
+            //    failure signature is the same
             for s in self.check.shrink_script(&cur.script) {
-                if budget == 0 {
+                if searches == 0 {
                     break;
                 }
-                budget -= 1;
-                let cand = Case { script: s, schedule: cur.schedule.clone() };
-                if fails(&cand) {
-                    // re-derive the explicit schedule of the smaller case
-                    cur = cand;
-                    progressed = true;
-                    break;
-                }
-                // also with the empty schedule
-                let cand0 = Case { script: cand.script.clone(), schedule: Schedule::Explicit(vec![]) };
-                if budget > 0 {
-                    budget -= 1;
-                    if fails(&cand0) {
-                        cur = cand0;
-                        progressed = true;
-                        break;
+                searches -= 1;
+                let sj = self.check.script_to_json(&s);
+                let req = json!({"mode":"subtree","script": sj, "prefix": [], "bound": 2, "max_runs": 1500});
+                if let Reply::Json(r) = self.pool.request(&req, Duration::from_secs(120)) {
+                    if r["status"].as_str() == Some("fail") && r["key"].as_str() == Some(key.as_str()) {
+                        if let Some(sch) = Schedule::from_json(&r["explicit"]) {
+                            let cand = Case { script: s, schedule: sch };
+                            if fails(&cand) {
+                                cur = cand;
+                                progressed = true;
+                                break;
+                            }
+                        }
                     }
                 }
             }
